@@ -219,6 +219,10 @@ func goValue(m Member, gotype string) (interface{}, bool) {
 				return int64(x), true
 			}
 		}
+		if m.T.Bits > 64 && (gotype == "smallest" || gotype == "int64") {
+			// a type wider than every Go integer: a value that fits in int64 is handed over as int64
+			return int64(x), true
+		}
 		return nil, false
 	case "uint":
 		v := bi(m.Vals[0])
@@ -243,6 +247,9 @@ func goValue(m Member, gotype string) (interface{}, bool) {
 			default:
 				return uint64(x), true
 			}
+		}
+		if m.T.Bits > 64 && (gotype == "smallest" || gotype == "uint64") {
+			return uint64(x), true
 		}
 		return nil, false
 	default:
